@@ -101,8 +101,21 @@ class NPProxy(types.ModuleType):
             return real_np.array(x, *a, **k)
         return _objectify(real_np.array(x, **k))
 
-    def append(self, arr, values, axis=None):
-        return _objectify(real_np.append(arr, values, axis=axis))
+    def _floatify(self, x):
+        if isinstance(x, real_np.ndarray) and x.dtype == object:
+            if any(is_sym(v) for v in x.ravel()):
+                raise TypeError("symbolic angle reached a trigonometric function (unmodelled)")
+            return x.astype(float)
+        return x
+
+    def deg2rad(self, x):
+        return real_np.deg2rad(self._floatify(x))
+
+    def cos(self, x):
+        return real_np.cos(self._floatify(x))
+
+    def sin(self, x):
+        return real_np.sin(self._floatify(x))
 
     def isscalar(self, x):
         return is_sym(x) or real_np.isscalar(x)
